@@ -100,6 +100,9 @@ def _tree(kind, present):
     return tree
 
 
+STRAY = 'tmp.metadata@%d.h5' % (T0 + 3600 + 5)      # an in-progress / stale tmp file: never listed, never stops the look-back
+
+
 class TD:
     """timedelta-like window bound wrapping a (symbolic) integer number of seconds: only ordering against datetime.timedelta and
     truthiness are needed by the listing code; avoids timedelta's divmod normalisation on symbolic values"""
@@ -116,13 +119,13 @@ class TD:
     __hash__ = None
 
 
-def _run_listing(kind, present, gone, start, end, reverse):
+def _run_listing(kind, present, gone, start, end, reverse, stray=False):
     kd = 'drf' if kind == 0 else 'dmd'
     tree = _tree(kd, present)
     def listdir(path):
         sd = path.rsplit('/', 1)[1]
         if gone >= 0 and sd == SUBS[gone]: raise OSError('vanished')
-        return [n for (_t, n) in tree[sd]]
+        return [n for (_t, n) in tree[sd]] + ([STRAY] if (stray and sd == SUBS[1]) else [])
     st = None if start is None else TD(T0 + start)
     en = None if end is None else TD(T0 + end)
     old = L.os.listdir
@@ -255,7 +258,19 @@ def _listing_fwd_md_none(p0: bool, p1: bool, p2: bool, p3: bool, start: Optional
     pre: start is None or end is None or start <= end
     post: _
     """
-    got, dirs, tree = _run_listing(1, [p0, p1, p2, p3], -1, start, end, False)
+    got, dirs, tree = _run_listing(1, [p0, p1, p2, p3], -1, start, end, False, False)
+    want = _expected_listing(1, tree, -1, start, end)
+    return got == (want) and dirs == ['other']
+
+
+def _listing_fwd_md_none_stray(p0: bool, p1: bool, p2: bool, p3: bool, start: Optional[int], end: Optional[int]) -> bool:
+    """
+    pre: start is None or 0 <= start <= 3 * 3600
+    pre: end is None or 0 <= end <= 3 * 3600
+    pre: start is None or end is None or start <= end
+    post: _
+    """
+    got, dirs, tree = _run_listing(1, [p0, p1, p2, p3], -1, start, end, False, True)
     want = _expected_listing(1, tree, -1, start, end)
     return got == (want) and dirs == ['other']
 
@@ -267,7 +282,19 @@ def _listing_rev_md_none(p0: bool, p1: bool, p2: bool, p3: bool, start: Optional
     pre: start is None or end is None or start <= end
     post: _
     """
-    got, dirs, tree = _run_listing(1, [p0, p1, p2, p3], -1, start, end, True)
+    got, dirs, tree = _run_listing(1, [p0, p1, p2, p3], -1, start, end, True, False)
+    want = _expected_listing(1, tree, -1, start, end)
+    return got == (list(reversed(want))) and dirs == ['other']
+
+
+def _listing_rev_md_none_stray(p0: bool, p1: bool, p2: bool, p3: bool, start: Optional[int], end: Optional[int]) -> bool:
+    """
+    pre: start is None or 0 <= start <= 3 * 3600
+    pre: end is None or 0 <= end <= 3 * 3600
+    pre: start is None or end is None or start <= end
+    post: _
+    """
+    got, dirs, tree = _run_listing(1, [p0, p1, p2, p3], -1, start, end, True, True)
     want = _expected_listing(1, tree, -1, start, end)
     return got == (list(reversed(want))) and dirs == ['other']
 
@@ -279,7 +306,19 @@ def _listing_fwd_md_gone0(p0: bool, p1: bool, p2: bool, p3: bool, start: Optiona
     pre: start is None or end is None or start <= end
     post: _
     """
-    got, dirs, tree = _run_listing(1, [p0, p1, p2, p3], 0, start, end, False)
+    got, dirs, tree = _run_listing(1, [p0, p1, p2, p3], 0, start, end, False, False)
+    want = _expected_listing(1, tree, 0, start, end)
+    return got == (want) and dirs == ['other']
+
+
+def _listing_fwd_md_gone0_stray(p0: bool, p1: bool, p2: bool, p3: bool, start: Optional[int], end: Optional[int]) -> bool:
+    """
+    pre: start is None or 0 <= start <= 3 * 3600
+    pre: end is None or 0 <= end <= 3 * 3600
+    pre: start is None or end is None or start <= end
+    post: _
+    """
+    got, dirs, tree = _run_listing(1, [p0, p1, p2, p3], 0, start, end, False, True)
     want = _expected_listing(1, tree, 0, start, end)
     return got == (want) and dirs == ['other']
 
@@ -291,7 +330,19 @@ def _listing_rev_md_gone0(p0: bool, p1: bool, p2: bool, p3: bool, start: Optiona
     pre: start is None or end is None or start <= end
     post: _
     """
-    got, dirs, tree = _run_listing(1, [p0, p1, p2, p3], 0, start, end, True)
+    got, dirs, tree = _run_listing(1, [p0, p1, p2, p3], 0, start, end, True, False)
+    want = _expected_listing(1, tree, 0, start, end)
+    return got == (list(reversed(want))) and dirs == ['other']
+
+
+def _listing_rev_md_gone0_stray(p0: bool, p1: bool, p2: bool, p3: bool, start: Optional[int], end: Optional[int]) -> bool:
+    """
+    pre: start is None or 0 <= start <= 3 * 3600
+    pre: end is None or 0 <= end <= 3 * 3600
+    pre: start is None or end is None or start <= end
+    post: _
+    """
+    got, dirs, tree = _run_listing(1, [p0, p1, p2, p3], 0, start, end, True, True)
     want = _expected_listing(1, tree, 0, start, end)
     return got == (list(reversed(want))) and dirs == ['other']
 
@@ -327,7 +378,19 @@ def _listing_fwd_md_gone2(p0: bool, p1: bool, p2: bool, p3: bool, start: Optiona
     pre: start is None or end is None or start <= end
     post: _
     """
-    got, dirs, tree = _run_listing(1, [p0, p1, p2, p3], 2, start, end, False)
+    got, dirs, tree = _run_listing(1, [p0, p1, p2, p3], 2, start, end, False, False)
+    want = _expected_listing(1, tree, 2, start, end)
+    return got == (want) and dirs == ['other']
+
+
+def _listing_fwd_md_gone2_stray(p0: bool, p1: bool, p2: bool, p3: bool, start: Optional[int], end: Optional[int]) -> bool:
+    """
+    pre: start is None or 0 <= start <= 3 * 3600
+    pre: end is None or 0 <= end <= 3 * 3600
+    pre: start is None or end is None or start <= end
+    post: _
+    """
+    got, dirs, tree = _run_listing(1, [p0, p1, p2, p3], 2, start, end, False, True)
     want = _expected_listing(1, tree, 2, start, end)
     return got == (want) and dirs == ['other']
 
@@ -339,7 +402,19 @@ def _listing_rev_md_gone2(p0: bool, p1: bool, p2: bool, p3: bool, start: Optiona
     pre: start is None or end is None or start <= end
     post: _
     """
-    got, dirs, tree = _run_listing(1, [p0, p1, p2, p3], 2, start, end, True)
+    got, dirs, tree = _run_listing(1, [p0, p1, p2, p3], 2, start, end, True, False)
+    want = _expected_listing(1, tree, 2, start, end)
+    return got == (list(reversed(want))) and dirs == ['other']
+
+
+def _listing_rev_md_gone2_stray(p0: bool, p1: bool, p2: bool, p3: bool, start: Optional[int], end: Optional[int]) -> bool:
+    """
+    pre: start is None or 0 <= start <= 3 * 3600
+    pre: end is None or 0 <= end <= 3 * 3600
+    pre: start is None or end is None or start <= end
+    post: _
+    """
+    got, dirs, tree = _run_listing(1, [p0, p1, p2, p3], 2, start, end, True, True)
     want = _expected_listing(1, tree, 2, start, end)
     return got == (list(reversed(want))) and dirs == ['other']
 
